@@ -52,6 +52,14 @@ def gen_case(r, cid, tier):
                 {'op': 'new', 'i': 1, 'all': False}, {'op': 'addconn', 'i': 1, 'proto': p, 'ps': {'all': False, 'ranges': [], 'named': [nm]}},
                 {'op': 'sub', 'i': 0, 'j': 1}, {'op': 'union', 'i': 0, 'j': 1}, {'op': 'isall', 'i': 0}, {'op': 'string', 'i': 0}]
         fresh.update([0, 1])
+    if n >= 3 and r.random() < 0.15:
+        # a copy is a value: re-allowing, in the copy, a named port that the original excludes must leave the original alone
+        p, nm = r.choice(PROTOS), r.choice(NAMES)
+        ops += [{'op': 'new', 'i': 0, 'all': True}, {'op': 'new', 'i': 1, 'all': False},
+                {'op': 'addconn', 'i': 1, 'proto': p, 'ps': {'all': False, 'ranges': [], 'named': [nm]}},
+                {'op': 'sub', 'i': 0, 'j': 1}, {'op': 'copy', 'i': 2, 'j': 0}, {'op': 'union', 'i': 2, 'j': 1},
+                {'op': 'string', 'i': 0}, {'op': 'equal', 'i': 0, 'j': 2}]
+        fresh.discard(0); fresh.add(1); fresh.discard(2)
     if r.random() < 0.15:
         # two sets that differ only in the NAME of their one named port are different sets
         p = r.choice(PROTOS)
